@@ -1,7 +1,7 @@
 (* C02 - A poll returns exactly the requested slice of the log, whichever tier holds it.
    FULL statement: every poll of every reachable state equals the slice of the abstract log
    (PartSpec.slice_offset / slice_last / slice_ts / slice_next), i.e. the model run is accepted by the monitor: *)
-From IggyV Require Import Base.Tactics Base.ListX Model.Part Model.PartSpec Proofs.PartBasics.
+From IggyV Require Import Base.Tactics Base.ListX Model.Part Model.PartSpec Proofs.PartBasics Proofs.PartHistory Proofs.CacheHistory.
 Open Scope N_scope.
 
 Definition C02_full : Prop :=
@@ -19,5 +19,28 @@ Theorem C02_disk_sound_partial : forall c s lo hi m,
   In m (disk_read c s lo hi) -> In m (log_msgs (s_log s)) /\ lo <= m_off m <= hi.
 Proof. exact disk_read_sound. Qed.
 
+(* PROVED, history level, cache tier (every operation list; side conditions as in C01_history_partial): in every reachable state
+   the message cache is a gap-free run ending at the current offset whose messages (from the earliest retained offset on) are
+   the stored ones - after appends, evictions, restarts with warm-up, purges and retention - and therefore a poll that is
+   answered from the cache returns EXACTLY the stored messages with the requested offsets: consecutive from the (clamped) start,
+   as many as asked for or as exist, each one the stored message. *)
+Theorem C02_cache_tier_exact_partial : forall ops c t0, good_cfg c -> Forall no_expiry_op ops ->
+  Forall (fun q => abase q <= B32) (prun_states (c, part_new c t0) ops) ->
+  let c' := fst (pfinal (c, part_new c t0) ops) in let p := snd (pfinal (c, part_new c t0) ops) in
+  forall start0 count first rest m0 chr,
+  p_segs p = first :: rest -> p_cache p = Some (m0 :: chr) -> p_inc p = true -> start0 <= p_cur p ->
+  let start := N.max start0 (s_start first) in
+  let hi := N.min (start + (count - 1)) (match last_opt (p_segs p) with Some l => s_cur l | None => 0 end) in
+  start <= hi -> hi <= p_cur p -> m_off m0 <= start ->
+  let r := poll_offset c' p start0 count in
+  contig start r /\ nlen r = hi - start + 1 /\ (forall m, In m r -> In m (part_all p)).
+Proof.
+  intros ops c t0 Hc Hops Hb. cbn zeta. intros start0 count first rest m0 chr Es Ec Hinc H0 H1 H2 H3.
+  pose proof (history_Q ops c (part_new c t0) Hc (Q_new c t0) Hops Hb) as HQ.
+  rewrite (poll_offset_from_cache _ _ start0 count first rest m0 chr Es Ec H0 H1 H2 H3).
+  apply (cache_answer_exact _ m0 chr _ _ HQ Ec Hinc H3 H1 H2). unfold first_start. rewrite Es. lia.
+Qed.
+
 Print Assumptions C02_read_sound_partial.
 Print Assumptions C02_disk_sound_partial.
+Print Assumptions C02_cache_tier_exact_partial.
